@@ -339,6 +339,36 @@ Definition callback (c : acfg) (tokens_ok : fields -> params -> bool) (jti : N) 
     else {| co_status := 500; co_back := [BToken body]; co_session := false; co_clears_login := true |}
   end.
 
+(** ** The session store across a callback
+    Standalone.LoginCallback performs exactly one store operation, and only at the very end: SessionManager.Create
+    writes the new session under the key derived from the provider's session id, after every browser-side check has
+    passed and the token response has validated. A session the browser already holds (its cookie travels with the
+    callback request) and the sessions of other users are neither read, written nor deleted. The store is a map from
+    key ids to value ids; [newk] / [newv] name the key and the (fresh) value of the session that is created, if one is. *)
+Definition astore := list (N * N).
+
+Fixpoint astore_get (k : N) (s : astore) : option N :=
+  match s with [] => None | (k', v) :: r => if N.eqb k k' then Some v else astore_get k r end.
+
+Fixpoint astore_remove (k : N) (s : astore) : astore :=
+  match s with [] => [] | (k', v) :: r => if N.eqb k k' then astore_remove k r else (k', v) :: astore_remove k r end.
+
+Definition astore_write (k v : N) (s : astore) : astore := (k, v) :: astore_remove k s.
+
+Definition callback_store (c : acfg) (tokens_ok : fields -> params -> bool) (jti : N) (r : cbreq) (newk newv : N) (s : astore) : astore :=
+  if co_session (callback c tokens_ok jti r) then astore_write newk newv s else s.
+
+(** ** Client authentication over several back-channel requests
+    Every back-channel request (pushed authorization request, code redemption, refresh grant) builds its own client
+    authentication when it is made (ClientAuthenticationParams -> MakeAssertion: a new token object with a new jti per
+    call; no state is shared between calls). For requests that overlap in time only the order in which the assertions
+    are built matters: the i-th one built carries the i-th draw, whichever exchange it belongs to. *)
+Fixpoint back_channel_auths (c : acfg) (jti : N) (n : nat) : list params :=
+  match n with O => [] | S m => client_auth c jti :: back_channel_auths c (jti + 1) m end.
+
+Definition assertion_of (p : params) : option N :=
+  match p with (PClientAssertion, VAssert j) :: _ => Some j | _ => None end.
+
 (** secrecy classification used by C13(7): credentials *)
 Fixpoint is_credential (v : sval) : bool :=
   match v with VSecret | VAssert _ => true | VCat _ x => is_credential x | _ => false end.
